@@ -91,6 +91,17 @@ CHECKS["C04"] = dict(
     technique="TLA+ model checking (TLC) + behaviour replay + TLC trace validation",
     design="6/C04")
 
+CHECKS["C12"] = dict(
+    level="model_checking",
+    text="TLC checks extract-files' path construction, with POSIX resolution of '/', '.', '..' over a host tree (parent, sibling, "
+         "destination, sub-directory), against 'created files are direct children of the destination' for every name/directory "
+         "character over a hostile alphabet, and that the requirement is not vacuous (an escaping name exists for unchecked "
+         "concatenation); discs carrying those names are extracted in sandbox trees (relative/absolute destination, with/without "
+         "trailing slash), every other command is run too, and TraceHostFs.tla judges before/after snapshots and the image hash.",
+    note="No symlinks in the host tree; snapshots compare paths, types and content hashes; a failing run that creates nothing is accepted.",
+    technique="TLA+ model checking (TLC) + behaviour replay + TLC trace validation",
+    design="6/C12")
+
 PENDING_REASON = "check not built yet in this session (work in progress; design in DESIGN.md section 6)"
 
 
